@@ -74,6 +74,10 @@ var relatedNameGroups = [][]genName{
 	{{2, []byte(strings.Repeat("a", 56) + ".onion")}, {2, []byte("*." + strings.Repeat("a", 56) + ".onion")}},
 	{{2, []byte("localhost")}, {2, []byte("*." + strings.Repeat("b", 56) + ".onion")}, {2, []byte("www.example.com")}},
 	{{2, []byte("facebookcorewwwi.onion")}, {2, []byte("*." + strings.Repeat("a", 56) + ".onion")}, {2, []byte("*.example.com")}},
+	// dNSNames that are the text of an address (the common name gets the same text in one of the variants below)
+	{{2, []byte("2001:db8::1")}, {2, []byte("www.example.com")}},
+	{{2, []byte("www.example.com")}, {2, []byte("10.0.0.1")}, {2, []byte("::1")}},
+	{{2, []byte("a_b.example.com")}, {2, []byte("www.example.com")}, {2, []byte("fe80::1")}},
 	// names without a dot: one that is itself a delegated TLD, one that is not, an absolute name
 	{{2, []byte("exchange")}, {2, []byte("autodiscover")}, {2, []byte("mail.example.com")}},
 	{{2, []byte("com")}, {2, []byte("localhost")}},
@@ -317,7 +321,9 @@ func certZoo() []ZooCert {
 		good := "https://zmapzmapzmapzmap.onion"
 		uris := []string{good, " " + good, good + "\n", good + " ", "\t" + good, "http://zmapzmapzmapzmap.onion", "https://", "https:///path", "", ":", "%zz", "https://user@zmapzmapzmapzmap.onion",
 			"https://zmapzmapzmapzmap.onion:443/x?y#z", "HTTPS://ZMAPZMAPZMAPZMAP.ONION", "https://[::1]/", "zmapzmapzmapzmap.onion", "https://zmapzmapzmapzmap.onion\x00", "https://exa mple.onion", "//zmapzmapzmapzmap.onion",
-			"https://" + strings.Repeat("a", 56) + ".onion", "\nhttps://zmapzmapzmapzmap.onion\n"}
+			"https://" + strings.Repeat("a", 56) + ".onion", "\nhttps://zmapzmapzmapzmap.onion\n",
+			// an authority that is not empty but names no host
+			"https://:443", "https://:", "https://[]", "https://[]:443", "https://user@", "https://user@:80/", "https://@/", "https://:443/zmapzmapzmapzmap.onion", "https:", "https:/", "https://?q", "https://#f"}
 		for i, u := range uris {
 			t := leafTemplate()
 			t.DNSNames = []string{"zmapzmapzmapzmap.onion"}
@@ -386,7 +392,19 @@ func certZoo() []ZooCert {
 		}
 	}
 	for i, g := range relatedNameGroups {
-		for v, cn := range []string{"", "example.com", "other.example.net"} {
+		firstDNS, lastDNS := "", ""
+		for _, n := range g {
+			if n.tag == 2 {
+				if firstDNS == "" {
+					firstDNS = string(n.value)
+				}
+				lastDNS = string(n.value)
+			}
+		}
+		for v, cn := range []string{"", "example.com", "other.example.net", firstDNS, lastDNS} {
+			if v >= 3 && (cn == "" || cn == "example.com" || (v == 4 && cn == firstDNS)) {
+				continue
+			}
 			t := leafTemplate()
 			t.DNSNames = nil
 			t.Subject.CommonName = cn
@@ -805,6 +823,28 @@ func crlZoo() []CorpusCRL {
 			}
 		}
 	}
+	// lifetimes exactly on a limit (10 days, 12 months, and one hour either side), starting in every month of a year: a
+	// limit computed in calendar arithmetic must not depend on anything but the two instants
+	for mth := 1; mth <= 12; mth++ {
+		for li, life := range []func(time.Time) time.Time{
+			func(t time.Time) time.Time { return t.AddDate(0, 0, 10) },
+			func(t time.Time) time.Time { return t.AddDate(0, 0, 10).Add(time.Hour) },
+			func(t time.Time) time.Time { return t.AddDate(0, 0, 10).Add(-time.Hour) },
+			func(t time.Time) time.Time { return t.AddDate(0, 12, 0) },
+			func(t time.Time) time.Time { return t.AddDate(0, 12, 0).Add(time.Hour) },
+		} {
+			if mth%2 == 0 && li > 1 && tier() != "thorough" {
+				continue
+			}
+			tu := time.Date(2024, time.Month(mth), 5, 0, 0, 0, 0, time.UTC)
+			tmpl := &stdx509.RevocationList{Number: big.NewInt(int64(8000 + mth*10 + li)), ThisUpdate: tu, NextUpdate: life(tu)}
+			if der, err := stdx509.CreateRevocationList(crand.Reader, tmpl, k.caCert, k.caKey); err == nil {
+				if crl, err := safeParseCRL(der); err == nil {
+					crlZooCache = append(crlZooCache, CorpusCRL{fmt.Sprintf("zoo-crl-lifetime-%02d-%d", mth, li), der, crl})
+				}
+			}
+		}
+	}
 	// times in an order no encoder produces: nextUpdate before (or equal to) thisUpdate, by swapping the two UTCTime fields of
 	// a regular list (the signature is not looked at by the parser or the lints)
 	for i, gap := range []time.Duration{24 * time.Hour, 5 * 24 * time.Hour, 400 * 24 * time.Hour, time.Second} {
@@ -834,7 +874,7 @@ func crlZoo() []CorpusCRL {
 	}
 	// large lists (a size-dependent code path is a code path): 130, 200 and 300 entries in no particular serial order,
 	// the first listed entry with reason 0, the entry with the smallest serial with reason 7, one list with a duplicate
-	for li, n := range []int{130, 200, 300} {
+	for li, n := range []int{130, 200, 300, 2500, 9000} {
 		tmpl := &stdx509.RevocationList{Number: big.NewInt(int64(5000 + li)), ThisUpdate: time.Date(2024, 2, 1, 0, 0, 0, 0, time.UTC), NextUpdate: time.Date(2024, 2, 8, 0, 0, 0, 0, time.UTC)}
 		for j := 0; j < n; j++ {
 			serial := int64((j*7919+li*13)%100000 + 1000)
